@@ -14,7 +14,14 @@ for sid in sorted(os.listdir(os.path.join(ROOT, "seeded")), key=key):
     m = json.load(open(os.path.join(ROOT, "seeded", sid, "meta.json")))
     rows.append("| %s | %s | %s | %s | %s |" % (sid, short(m.get("summary", ""), 230), short(m.get("needs", ""), 200),
                                                m.get("caught", "?"), short(m.get("caught_how", ""), 330)))
-table = "| seed | change | needs | caught | by which check, how (and what had to be added when it was first missed) |\n|---|---|---|---|---|\n" + "\n".join(rows)
+metas = [json.load(open(os.path.join(ROOT, "seeded", sid, "meta.json"))) for sid in os.listdir(os.path.join(ROOT, "seeded"))]
+n = len(metas)
+first_missed = sum(1 for m in metas if "FIRST MISSED" in m.get("caught_how", "") or "first missed" in m.get("caught_how", "").lower())
+not_caught = sum(1 for m in metas if m.get("caught") != "yes")
+summary = ("Summary: %d independent seeded changes kept (%d properties); %d were reported by the check as it stood when the "
+           "seed arrived, %d were first missed and are reported after the strengthening named in the row, %d are still "
+           "not reported (caught = no/partly).\n\n" % (n, len({m["property"] for m in metas}), n - first_missed - not_caught, first_missed, not_caught))
+table = summary + "| seed | change | needs | caught | by which check, how (and what had to be added when it was first missed) |\n|---|---|---|---|---|\n" + "\n".join(rows)
 p = os.path.join(ROOT, "DESIGN.md")
 s = open(p).read()
 s2 = re.sub(r"<!-- seeded-table-begin -->.*<!-- seeded-table-end -->",
